@@ -179,7 +179,8 @@ def check_graph(A, order, ctx, rng, probe, all_pairs):
                     if a == "g":
                         q = QuantumState(g.copy(), rep_type="g")
                     elif a == "s":
-                        q = QuantumState(gq.ptab_to_clifford(pauli.scramble_generators(rng, ref_group) if n >= 2 else ref_group, rng), rep_type="s")
+                        pres_s = pauli.scramble_generators(rng, ref_group) if n >= 2 else ref_group
+                        q = QuantumState(gq.ptab_to_clifford(pres_s, rng), rep_type="s")
                     else:
                         q = QuantumState(ref_rho.copy(), rep_type="dm")
                     q.convert_representation(b)
@@ -194,7 +195,13 @@ def check_graph(A, order, ctx, rng, probe, all_pairs):
                     else:
                         same = np.allclose(q.rep_data.data, ref_rho, atol=1e-8)
                     if not same:
-                        ctx.violation("convert_representation_changes_state", case, {"from": a, "to": b}, key=f"convert_wrong:{a}->{b}")
+                        key = f"convert_wrong:{a}->{b}"
+                        if a == "s" and b == "dm":
+                            # mechanism of the open finding: the projector is built from the generator labels without their signs
+                            x_, z_, r_, _ = pres_s.to_graphiq()
+                            if r_.any() and np.allclose(q.rep_data.data, dense.projector_of_group(pauli.PTab.from_graphiq(x_, z_, 0 * r_)), atol=1e-8):
+                                key = "stab-to-density-ignores-signs"
+                        ctx.violation("convert_representation_changes_state", case, {"from": a, "to": b}, key=key)
                 except Exception as e:
                     ctx.violation("convert_representation_raises", case, {"from": a, "to": b, "exception": _exc(e)}, key=f"convert_exc:{a}->{b}")
 
